@@ -193,7 +193,7 @@ func encodeWithRecon(img image.Image, o *webp.EncoderOptions) ([]byte, *verifhoo
 func checkC06(args []string) {
 	run := vx.NewRun("C06", "translation_validation", args)
 	activeRun = run
-	run.Rule = "lossy option product (Quality, Method 0..6, presets, Segments, Partitions, Pass, SNS, filter strength/sharpness/type, QMin/QMax, TargetSize, TargetPSNR, sharp YUV, dithering) x sizes incl. non-multiples of 16 x content classes x serial (GOMAXPROCS 1) and pipelined (GOMAXPROCS 8) encoder; the encoder's planes are captured by a hook when EncodeFrame returns; (a) webp.Decode with in-loop deblocking bypassed by a hook must return exactly those planes, (b) with FilterStrength 0 the plain webp.Decode must, and (c) for pictures up to 48x48 the independent TLA+ reader (spec/Vp8.tla via TVVp8) decodes the stream: its pre-filter planes must equal the hook planes and its filtered planes the real decoder's. distinct = distinct (size class, option set, path) cases"
+	run.Rule = "lossy option product (Quality, Method 0..6, presets, Segments, Partitions, Pass, SNS, filter strength/sharpness/type, QMin/QMax, TargetSize, TargetPSNR, sharp YUV, dithering; every second case with the intra-mode decisions overridden through a verif hook) x sizes incl. non-multiples of 16 x content classes x serial (GOMAXPROCS 1) and pipelined (GOMAXPROCS 8) encoder; the encoder's planes are captured by a hook when EncodeFrame returns; (a) webp.Decode with in-loop deblocking bypassed by a hook must return exactly those planes, (b) with FilterStrength 0 the plain webp.Decode must, and (c) for pictures up to 48x48 the independent TLA+ reader (spec/Vp8.tla via TVVp8) decodes the stream: its pre-filter planes must equal the hook planes and its filtered planes the real decoder's. distinct = distinct (size class, option set, path) cases"
 	run.Assumptions = []string{"the hook copies VP8Encoder.yPlane/uPlane/vPlane when EncodeFrame returns", "opaque pictures (the colour planes do not depend on alpha)"}
 	rng := rand.New(rand.NewSource(run.Seed))
 	old := runtime.GOMAXPROCS(0)
@@ -229,7 +229,16 @@ func checkC06(args []string) {
 		img := lossyPicture(rng, w, h, content)
 		name := fmt.Sprintf("%dx%d %s procs%d %s", w, h, content, procs, lossyOptName(o))
 		sig := fmt.Sprintf("m%d|seg%d|part%d|target=%v|sharp=%v|preset%d|pass%d", o.Method, o.Segments, o.Partitions, o.TargetSize > 0 || o.TargetPSNR > 0, o.UseSharpYUV, o.Preset, o.Pass)
+		// every second case: the intra-mode decisions are overridden through the Score hook (about one evaluated mode
+		// in `period` wins whatever its cost), so that all prediction modes occur at all positions on any content
+		if i%2 == 1 {
+			period := uint64([]int{2, 4, 8}[(i/2)%3])
+			verifhook.ForceModes(uint64(run.Seed)*100003+uint64(i)+1, period)
+			name += fmt.Sprintf(" forced-modes/%d", period)
+			sig += "|forced-modes"
+		}
 		out, rec, err := encodeWithRecon(img, &o)
+		verifhook.ForceModes(0, 1)
 		if err != nil {
 			run.Violate("encode-fails|"+sig, name+": "+err.Error(), name)
 			continue
